@@ -31,7 +31,7 @@ def ancestralB (M : MG) : Bool :=
 
 def maximalB (M : MG) : Bool :=
   (C08.combos M.nodes).all fun (x, y) =>
-    adjB M x y || (sublists (M.nodes.filter fun v => v != x && v != y)).any fun Z => MG.mSeparated M [x] [y] Z
+    x == y || adjB M x y || (sublists (M.nodes.filter fun v => v != x && v != y)).any fun Z => MG.mSeparated M [x] [y] Z
 
 /-- valid MAG without undirected edges: simple, ancestral, maximal -/
 def isMagB (M : MG) : Bool := M.un.isEmpty && M.circ.isEmpty && ancestralB M && maximalB M
@@ -43,20 +43,25 @@ def assignments : List (Nat × Nat) → List (List (Nat × Nat) × List (Nat × 
 
 def skelPairs (M : MG) : List (Nat × Nat) := (C08.combos M.nodes).filter fun (a, b) => adjB M a b
 
+/-- candidate member: the nodes of `M` with the given directed and bidirected edges -/
+def cand (M : MG) (d b : List (Nat × Nat)) : MG := { nodes := M.nodes, dir := d, bi := b }
+
 /-- the Markov equivalence class of the MAG `M` (as graphs with directed and bidirected edges) -/
 def equivClass (M : MG) : List MG :=
   let qs := queries M.nodes
   let ref := qs.map (sepOf M)
-  ((assignments (skelPairs M)).map fun (d, b) => ({ nodes := M.nodes, dir := d, bi := b } : MG)).filter fun M' =>
+  ((assignments (skelPairs M)).map fun (d, b) => cand M d b).filter fun M' =>
     ancestralB M' && (qs.zip ref).all fun (q, r) => sepOf M' q == r
 
 def headAt (M : MG) (a b : Nat) : Bool := markB M a b == 2
 
+/-- the mark at `b` shared by the class: 2 head, 1 tail, 3 circle (not shared) -/
+def sharedMark (cls : List MG) (a b : Nat) : Nat :=
+  if cls.all (headAt · a b) then 2 else if cls.all (fun M' => !headAt M' a b) then 1 else 3
+
 /-- the PAG of `M` from the definition: a mark is kept iff every member of the class has it -/
 def pagOf (M : MG) : MG :=
-  let cls := equivClass M
-  let mk := fun (a b : Nat) =>       -- mark at b: 2 head, 1 tail, 3 circle
-    if cls.all (headAt · a b) then 2 else if cls.all (fun M' => !headAt M' a b) then 1 else 3
+  let mk := sharedMark (equivClass M)
   let ord := (skelPairs M).flatMap fun (a, b) => [(a, b), (b, a)]
   { nodes := M.nodes,
     circ := ord.filter fun (a, b) => mk a b == 3,
@@ -66,9 +71,13 @@ def pagOf (M : MG) : MG :=
 
 def sameNodes (A B : List Nat) : Bool := A.all (· ∈ B) && B.all (· ∈ A)
 
-/-- executable `Structural` (over the node list of `P` and of `M`) -/
+/-- every endpoint of an edge of `G` (any layer) -/
+def ends (G : MG) : List Nat := (G.dir ++ G.bi ++ G.un ++ G.circ).flatMap fun e => [e.1, e.2]
+
+/-- executable `StructuralS` (over the node lists of `P` and `M` and every endpoint of an edge of
+    either graph, so that an edge to a non-node cannot escape the comparison) -/
 def structuralFails (P M : MG) : List String :=
-  let ns := (P.nodes ++ M.nodes).eraseDups
+  let ns := (P.nodes ++ M.nodes ++ ends P ++ ends M).eraseDups
   let prs := ns.flatMap fun a => ns.map fun b => (a, b)
   (if sameNodes P.nodes M.nodes then [] else ["nodes"]) ++
   (if prs.all (fun (a, b) => adjB M a b == adjB P a b) then [] else ["adjacency"]) ++
@@ -82,16 +91,36 @@ def ucB (G : MG) (a c b : Nat) : Bool :=
 def noNewUCB (P M : MG) : Bool :=
   M.nodes.all fun a => M.nodes.all fun c => M.nodes.all fun b => !ucB M a c b || ucB P a c b
 
+/-- executable `WF4` -/
+def wf4B (G : MG) : Bool :=
+  (G.dir ++ G.bi ++ G.un ++ G.circ).all fun e => decide (e.1 ∈ G.nodes) && decide (e.2 ∈ G.nodes)
+
+/-- executable `SourceOK` -/
+def srcOkB (M0 : MG) : Bool :=
+  wf4B M0 && M0.un.isEmpty && M0.circ.isEmpty && (M0.dir ++ M0.bi).all fun e => e.1 != e.2
+
+/-- the requests the validator refuses to judge: a PAG or a source graph with an edge to a non-node, a
+    source graph that is not a directed/bidirected graph without self loops (never sent by the harness) -/
+def inputFails (P : MG) (S : Option MG) : List String :=
+  if wf4B P && (match S with | some M0 => srcOkB M0 | none => true) then [] else ["bad-input"]
+
 def firstFails (P M : MG) : List String :=
   structuralFails P M ++
   (if !hasCycle M then [] else ["directed-cycle"]) ++
   (if ancestralB M then [] else ["not-ancestral"]) ++
   (if noNewUCB P M then [] else ["new-unshielded-collider"])
 
+/-- the two graphs answer every enumerated query alike -/
+def sameSepB (M0 M : MG) : Bool := (queries M0.nodes).all fun q => sepOf M0 q == sepOf M q
+
 def secondFails (M0 M : MG) : List String :=
   (if ancestralB M && M.un.isEmpty then [] else ["not-a-mag"]) ++
   (if maximalB M then [] else ["not-maximal"]) ++
-  (if sameNodes M0.nodes M.nodes && (queries M0.nodes).all (fun q => sepOf M0 q == sepOf M q) then []
-   else ["not-markov-equivalent"])
+  (if sameNodes M0.nodes M.nodes && sameSepB M0 M then [] else ["not-markov-equivalent"])
+
+/-- everything `c09valid` reports: `P` the PAG, `M` the graph returned by the implementation, `S` the
+    source MAG if one is given -/
+def validFails (P M : MG) (S : Option MG) : List String :=
+  inputFails P S ++ firstFails P M ++ (match S with | some M0 => secondFails M0 M | none => [])
 
 end C09
